@@ -120,6 +120,170 @@ class PairwiseMax(Contract):
         return {1: sp}
 
 
+
+TSP = z3.Function('TSP', z3.IntSort(), z3.IntSort(), z3.IntSort(), z3.IntSort())   # target i, cell j, rows done k
+
+
+def as_int(x):
+    """results is a float64 array that stores integers in columns 1-3"""
+    if O.is_sym(x) and z3.is_real(x):
+        return z3.ToInt(x)
+    if isinstance(x, float):
+        return int(x)
+    return x
+
+
+class PValues(Contract):
+    """C13 / C14 (alignment scan of one query against every target): every array access is inside its
+    array and every scratch element is written before it is read, WHATEVER the scratch buffers held on
+    entry (results and t_sums are havoced, uninitialised) - so the row written for target i is a
+    function of (query, targets, parameters) only.  t_sums[j] is the complete-score alignment sum
+    nq*offset + sum of aligned integerised similarities (recursive spec TSP); the reported score is the
+    maximum over all nt+nq-1 alignments (at least 0), the reported offset / overlap belong to an
+    alignment attaining it, and the p-value is B_cdfs[nt, score-1] (1 for score 0)."""
+    qualname = 'tangermeme.tools.tomtom._p_values'
+    props = ('C13', 'C14')
+    modifies = ('results',)
+
+    def make_args(self, cfg, A):
+        Tc, Qm = A.dim('gamma.d0', 1), A.dim('gamma.d1', 1)
+        gamma = A.tensor('gamma', 2, 'int', lib='np', shape=[Tc, Qm])
+        B = A.tensor('B_cdfs', 2, 'real', lib='np')
+        rr = A.tensor('rr_inv', 1, 'int', lib='np')
+        TL = A.tensor('T_lens', 1, 'int', lib='np')
+        # results: a per-thread scratch row block: contents and initialisation unknown on entry
+        res = A.tensor('results', 2, 'real', lib='np', shape=[A.dim('results.d0'), 5])
+        g = z3.Function('results.init', z3.IntSort(), z3.IntSort(), z3.BoolSort())
+        res.cell.init = lambda i, c: g(O.to_z3(i), O.to_z3(c))
+        return [gamma, B, rr, TL, A.int('iq'), A.int('nq', lo=1), A.int('offset', lo=0), res], {}
+
+    def scopes(self, cfg):
+        return [{'gamma.d0': 2, 'gamma.d1': 2, 'B_cdfs.d0': 3, 'B_cdfs.d1': 6, 'rr_inv.d0': 3, 'T_lens.d0': 2, 'results.d0': 2, 'nq': 2}]
+
+    def toff(self, a, i):
+        """start of target i in rr_inv: prefix sum of T_lens (recursive spec TOFF)"""
+        TOFF = z3.Function('TOFF', z3.IntSort(), z3.IntSort())
+        return TOFF(O.to_z3(i))
+
+    def pre(self, a, cfg):
+        gamma, B, rr, TL, nq, off = a.gamma, a.B_cdfs, a.rr_inv, a.T_lens, a.nq, a.offset
+        nT = TL.shape[0]
+        TOFF = z3.Function('TOFF', z3.IntSort(), z3.IntSort())
+        i, j, k = z3.Ints('ti tj tk')
+        out = [nq <= gamma.shape[1], O.eq(a.results.shape[0], nT), a.iq >= -1,
+               TOFF(0) == 0,
+               z3.ForAll([i], z3.Implies(z3.And(0 <= i, i < O.to_z3(nT)), TOFF(i + 1) == TOFF(i) + O.to_z3(TL[i])), patterns=[O.to_z3(TL[i])]),
+               TOFF(O.to_z3(nT)) <= O.to_z3(rr.shape[0]),
+               # prefix sums of non-negative lengths are monotone (consequence of the recursion; stated)
+               z3.ForAll([i], z3.Implies(z3.And(0 <= i, i <= O.to_z3(nT)), z3.And(TOFF(i) >= 0, TOFF(i) <= O.to_z3(rr.shape[0]))))]
+        # every target has at least one column and no more columns than the pooled column table
+        # (documented assumption on the caller: t_sums is sized by gamma.shape[0], DESIGN 9)
+        out.append(O.forall_hyp([nT], lambda t: And(TL[t] >= 1, TL[t] <= gamma.shape[0], TL[t] < B.shape[0])))
+        out.append(O.forall_hyp([rr.shape[0]], lambda q: And(rr[q] >= 0, rr[q] < gamma.shape[0])))
+        # recursive spec of the alignment sums
+        gk = lambda ii, kk, ll: gamma[rr[TOFF(ii) + kk], ll]
+        out.append(z3.ForAll([i, j], TSP(i, j, 0) == O.to_z3(O.mul(nq, off))))
+        out.append(z3.ForAll([i, j, k], z3.Implies(k >= 0, TSP(i, j, k + 1) == TSP(i, j, k) + O.to_z3(ite(And(0 <= j - k, j - k < nq), gk(i, k, j - k), 0))),
+                             patterns=[TSP(i, j, k + 1)]))
+        # the null-distribution table covers every attainable alignment sum (established by the caller
+        # from n_len = Q_max * (n_score_bins + n_cache); assumed here), and sums fit int16
+        out.append(z3.ForAll([i, j, k], z3.Implies(z3.And(0 <= i, i < O.to_z3(nT), k >= 0, k <= O.to_z3(TL[i])),
+                                                   z3.And(TSP(i, j, k) >= 0, TSP(i, j, k) <= O.to_z3(B.shape[1]), TSP(i, j, k) <= 32767))))
+        return out
+
+    def result(self, a, cfg):
+        return None
+
+    def skipped(self, a, i):
+        n = O.floordiv(a.T_lens.shape[0], 2)
+        return Or(i <= a.iq, And(i >= n, i <= n + a.iq))
+
+    def post(self, a, r, cfg):
+        live = a._live['results']
+        TL, nq = a.T_lens, a.nq
+        nT = TL.shape[0]
+        out = [('rows-initialised', O.forall([nT, 4], lambda i, c: live.init_at(i, c)))]
+
+        def row_ok(i):
+            nt = TL[i]
+            sc = as_int(live[i, 1])
+            k = as_int(live[i, 2]) + nq - 1
+            att = And(0 <= k, k < nt + nq - 1, O.eq(TSP(O.to_z3(i), O.to_z3(k), O.to_z3(nt)), sc),
+                      O.eq(live[i, 3], O.vmin(k + 1, nq) - O.vmax(0, k - nt + 1)), O.eq(live[i, 1], sc))
+            j = O.fresh_int('alj')
+            is_max = Implies(And(0 <= j, j < nt + nq - 1), TSP(O.to_z3(i), O.to_z3(j), O.to_z3(nt)) <= sc)
+            pv = ite(sc > 0, a.B_cdfs[nt, sc - 1], 1)
+            return ite(self.skipped(a, i),
+                       And(O.eq(live[i, 0], 1), O.eq(sc, 0)),
+                       And(is_max, Or(att, And(O.eq(sc, 0), O.eq(live[i, 2], 0), O.eq(live[i, 3], 0))), O.eq(live[i, 0], pv)))
+        out.append(('score-is-max-alignment-sum;offset,overlap-attain-it;p-value-from-table', O.forall([nT], row_ok)))
+        return out
+
+    def loops(self):
+        from vf.contract import NS
+
+        def A_(fr):
+            e = fr.env
+            return NS(gamma=e['gamma'], B_cdfs=e['B_cdfs'], rr_inv=e['rr_inv'], T_lens=e['T_lens'], iq=e['iq'], nq=e['nq'],
+                      offset=e['offset'], results=e['results'])
+
+        def row_spec(a, live, i, upto=None):
+            """row i of results after scanning alignments j < upto (None: all)"""
+            nt, nq = a.T_lens[i], a.nq
+            lim = nt + nq - 1 if upto is None else upto
+            sc = as_int(live[i, 1])
+            k = as_int(live[i, 2]) + nq - 1
+            att = And(0 <= k, k < lim, O.eq(TSP(O.to_z3(i), O.to_z3(k), O.to_z3(nt)), sc),
+                      O.eq(live[i, 3], O.vmin(k + 1, nq) - O.vmax(0, k - nt + 1)), O.eq(live[i, 1], sc))
+            j = z3.Int(O.fresh_name('alj'))
+            is_max = z3.ForAll([j], O.to_z3(Implies(And(0 <= j, j < lim), TSP(O.to_z3(i), j, O.to_z3(nt)) <= sc)))
+            pv = ite(sc > 0, a.B_cdfs[nt, sc - 1], 1)
+            return And(is_max, Or(att, And(O.eq(sc, 0), O.eq(live[i, 2], 0), O.eq(live[i, 3], 0))), O.eq(live[i, 0], pv), sc >= 0)
+
+        def inv1(E, fr):
+            a = A_(fr)
+            live = E.results
+            it = E.it
+            out = [('total_offset-is-prefix-sum', O.eq(E.total_offset, self.toff(a, it))),
+                   ('next-target-inside-rr_inv', Implies(it < a.T_lens.shape[0], And(O.eq(self.toff(a, it + 1), self.toff(a, it) + a.T_lens[it]),
+                                                                                    self.toff(a, it + 1) <= a.rr_inv.shape[0])))]
+            out.append(('rows-done-initialised', E.forall([it, 4], lambda i, c: live.init_at(i, c))))
+
+            def done(i):
+                return ite(self.skipped(a, i), And(O.eq(live[i, 0], 1), O.eq(live[i, 1], 0)), row_spec(a, live, i))
+            out.append(('rows-done-correct', E.forall([it], done)))
+            return out
+
+        def inv2(E, fr):
+            a = A_(fr)
+            t = E.t_sums
+            return [('t_sums-prefix-initialised', E.forall([E.it], lambda j: And(t.init_at(j), O.eq(t[j], O.mul(a.nq, a.offset)))))]
+
+        def inv3(E, fr):
+            a = A_(fr)
+            t, i, nt = E.t_sums, E.i, E.nt
+            return [('t_sums-is-partial-alignment-sum', E.forall([nt + a.nq - 1], lambda j: And(t.init_at(j), O.eq(t[j], TSP(O.to_z3(i), O.to_z3(j), O.to_z3(E.it))))))]
+
+        def inv4(E, fr):
+            a = A_(fr)
+            t, i, nt, k = E.t_sums, E.i, E.nt, E.k
+            gk = lambda ll: a.gamma[E.k_idx, ll]
+            return [('t_sums-row-partially-added', E.forall([nt + a.nq - 1], lambda j: And(t.init_at(j), O.eq(
+                t[j], TSP(O.to_z3(i), O.to_z3(j), O.to_z3(k)) + ite(And(0 <= j - k, j - k < E.it), gk(j - k), 0)))))]
+
+        def inv5(E, fr):
+            a = A_(fr)
+            live, i = E.results, E.i
+            old = E.old.results
+            return [('row-initialised', And(*[live.init_at(i, c) for c in range(4)])),
+                    ('row-is-best-so-far', row_spec(a, live, i, upto=E.it)),
+                    # frame: the scan of target i touches row i only
+                    ('other-rows-untouched', E.forall([live.shape[0], 5], lambda r, c: Implies(O.ne(r, i), And(
+                        O.eq(live[r, c], old[r, c]), O.Iff(live.init_at(r, c), old.init_at(r, c))))))]
+        return {1: LoopSpec(inv1), 2: LoopSpec(inv2), 3: LoopSpec(inv3), 4: LoopSpec(inv4), 5: LoopSpec(inv5)}
+
+
 def register(world):
     world.register(MergeRcResults())
     world.register(PairwiseMax())
+    world.register(PValues())
